@@ -12,7 +12,8 @@ SPEC = {
     "lean_modules": ["Honeycomb.Props.C14", "Honeycomb.Props.C14b"],
     "required_theorems": ["C14_insertVertices_preserves_WF", "C14_insertVertex_preserves_WF",
                           "C14_error_leaves_map_unchanged", "C14_new_vertex_position",
-                          "C14_insertVertices_beta_structure"],
+                          "C14_insertVertices_beta_structure", "C14_new_darts_distinct_vertices",
+                          "C14_new_vertex_position_full", "C14_insertVertex_beta_structure"],
     "trusted_base": [
         "Lean 4.33 kernel; axioms propext, Classical.choice, Quot.sound only",
         "hand-written model Honeycomb/Model/Kernels/{Geom2,VertexInsertion}.lean (+ Stm, Map, Ops, Ops2) tied to /repo by the "
@@ -36,9 +37,7 @@ SPEC = {
             "unchanged; invalid inputs are refused with the documented error kind, valid ones accepted. "
             "distinct_nontrivial = distinct implementation transcripts.",
     "not_proved": [
-        "exact beta images of a successful call (chain base->nd_1..nd_k->old successor, reversed beta2 pairing, frame): validated by the "
-        "oracle on every case, not a theorem",
-        "vertex orbits of the end points are unchanged as dart sets (oracle only)",
+        "vertex orbits of the two END points are unchanged as dart sets (oracle only)",
     ],
 }
 
